@@ -74,8 +74,15 @@ def run_reports(prop, tier, seed, runs, replay_sub, assumptions, rule, scope, ex
             cc.log(f"  {f['message']}")
             violation = path
             break
+    deep_cov = {}
+    if tier == "thorough" and not violation:
+        deep_cov, dv = cc.deep_tier(prop, seed)
+        if dv:
+            violation = dv[0]
     wall = time.time() - t0
     cov = cc.merge_reports(prop, reports)
+    cov.update(deep_cov)
+    cov["evaluations"] += deep_cov.get("fuzz_executions", 0) + deep_cov.get("miri_cases", 0)
     cov["rule"] = rule
     cov["exhaustive_scope"] = scope
     cov["regression_cases_replayed"] = nreg
@@ -195,8 +202,20 @@ def run_c18(tier, seed):
             violation = (path, f["message"])
             break
         if st.get("failure"):
-            cc.write_min_evidence(prop, tier, seed, time.time() - t0, 0, f"the stable build fails {sub} itself")
-            cc.inconclusive(f"property=C18: the stable build itself fails {sub}; fix that first (see ./check {sub})")
+            # the stable build fails an oracle: if the unstable build passes the very same case, the two
+            # configurations behave differently, which is what this property forbids
+            f = st["failure"]
+            tmp = os.path.join(cc.OUT, "C18.stable-failure.json")
+            json.dump({"case": f["case"]}, open(tmp, "w"))
+            ru, outu = cc.replay_once("unstable", sub, tmp)
+            if ru == "ok":
+                path = cc.save_replay(prop, {"property": prop, "sub_property": sub, "case": f["case"], "rendered": f["rendered"],
+                                             "message": "the default stable build fails this case (" + f["message"] + ") while the nightly `unstable` build passes it: the two configurations behave differently"})
+                cc.log(f"stable and unstable differ on {sub}: {f['rendered']}\n  stable: {f['message']}\n  unstable: passes")
+                violation = (path, "stable fails, unstable passes")
+                break
+            cc.write_min_evidence(prop, tier, seed, time.time() - t0, 0, f"both builds fail {sub} on the same case")
+            cc.inconclusive(f"property=C18: both builds fail {sub} in the same way; fix that first (see ./check {sub})")
         ds, du = st["enumerative"]["unit_digests"], un["enumerative"]["unit_digests"]
         diff = [i for i in range(min(len(ds), len(du))) if ds[i] != du[i]]
         pd = st.get("proptest", {}).get("digest") != un.get("proptest", {}).get("digest")
